@@ -686,7 +686,10 @@ class CxxParser:
             val = self._create_value(raw_toks)
             dtype = None
 
-            if raw_toks and raw_toks[0].type in self._pqname_start_tokens:
+            if raw_toks and (
+                raw_toks[0].type in self._pqname_start_tokens
+                or raw_toks[0].type in ("const", "volatile")
+            ):
                 # append a token to make other parsing components happy
                 raw_toks.append(PhonyEnding)
 
